@@ -50,6 +50,11 @@ func (h *Handler) StartHunt(addr packet.Addr) (packet.HuntStage, error) {
 	if Logger.IsInfo() {
 		Logger.Msg("start hunt").Struct(addr).Write()
 	}
+	if h.loops[string(addr.MAC)] {
+		// the loop of an earlier hunt has not noticed the stop yet: it finds the mac listed again and carries on
+		return packet.StageHunt, nil
+	}
+	h.loops[string(addr.MAC)] = true
 	go h.spoofLoop(addr)
 	return packet.StageHunt, nil
 }
@@ -88,9 +93,9 @@ func (h *Handler) spoofLoop(addr packet.Addr) {
 		h.arpMutex.Lock()
 		targetAddr, hunting := h.huntList[string(addr.MAC)] // same key as StartHunt/StopHunt: two MACs can share an IP
 		closed := h.closed
-		h.arpMutex.Unlock()
-
 		if !hunting || closed {
+			delete(h.loops, string(addr.MAC)) // leaving: from here on StartHunt starts a new loop
+			h.arpMutex.Unlock()
 			if Logger.IsInfo() {
 				Logger.Msg("hunt loop stop").Struct(addr).Int("repeat", nTimes).String("duration", time.Since(startTime).String()).Write()
 			}
@@ -105,6 +110,7 @@ func (h *Handler) spoofLoop(addr packet.Addr) {
 			}
 			return
 		}
+		h.arpMutex.Unlock()
 
 		// Re-arp target to change router to host so all traffic comes to us
 		//
